@@ -316,6 +316,28 @@ func init() {
 					}(), Key: "rbytes"})
 			}
 		}
+		// the SAME field bytes read under different padding conventions, back to back in one process (a reader must not
+		// remember what it returned for these bytes under another convention)
+		for r := 0; r < rounds*3; r++ {
+			n := 1 + g.r.Intn(16)
+			field := g.bytes(n, '0')
+			if r%2 == 0 {
+				k := g.r.Intn(n + 1)
+				field = append(bytes.Repeat([]byte{'0'}, k), g.bytes(n-k, ' ')...)
+			}
+			for _, cv := range []struct {
+				pad  int
+				left bool
+			}{{'0', true}, {' ', false}, {0, false}, {'0', false}, {' ', true}} {
+				op := Op{K: "fixed", N: n, Pad: cv.pad, Left: cv.left}
+				rr := corrRop(o, op, "", false, field, g.mode())
+				want := refTrim(field, byte(cv.pad), cv.left)
+				if rr.Class != "ok" || !bytes.Equal(rr.Val.S, want) {
+					o.violate(Violation{Property: "C13", Kind: "direct", What: "fixed-width read depends on an earlier read of the same bytes under another padding convention",
+						Case: "rop " + opTokens(op) + " " + hexOf(field), Expected: hexOf(want), Observed: rr.Class, Key: "convention"})
+				}
+			}
+		}
 		for r := 0; r < rounds; r++ {
 			for n := 0; n <= 40; n++ {
 				pad := pads[g.r.Intn(len(pads))]
